@@ -273,34 +273,245 @@ theorem read_spec {kw : Bool} {f : File} {unc : Codec} {sw : Nat → Nat} (hc : 
                 rw [hg] at hres
                 simp only at hres
                 simp only [hres.1, ne_eq, not_true_eq_false, if_false, hres.2, hg]
-                by_cases h4 : ino.fragOff + o' ≥ fb.2
+                generalize wrap64 (ino.fragOff + o') = fo
+                by_cases h4 : fo ≥ fb.2
                 · simp only [h4, if_true]
                   exact ⟨by triv, hd'', hb''.trans hb, ht''.trans ht⟩
                 · simp only [h4, if_false]
-                  by_cases h5 : fb.2 - (ino.fragOff + o') < s'
+                  by_cases h5 : fb.2 - fo < s'
                   · simp only [h5, if_true]
                     exact ⟨by triv, hd'', hb''.trans hb, ht''.trans ht⟩
                   · simp only [h5, if_false]
                     exact ⟨by triv, hd'', hb''.trans hb, ht''.trans ht⟩
 
+/-! ### `get_fragment`, the stream, `load_fragment_table` -/
+
+theorem getFragment_spec {kw : Bool} {f : File} {unc : Codec} {sw : Nat → Nat} (hc : CodecOK unc) {d : DR}
+    (hd : DCoh kw f unc sw d) (ino : Inode) :
+    (getFragment f unc d ino).1 = getFragmentSpec f unc d.blockSize d.tbl ino ∧
+    DCoh kw f unc sw (getFragment f unc d ino).2 ∧
+    (getFragment f unc d ino).2.blockSize = d.blockSize ∧ (getFragment f unc d ino).2.tbl = d.tbl := by
+  unfold getFragment getFragmentSpec
+  by_cases h1 : ino.blocks.length > (U64 - 1) / d.blockSize
+  · simp only [h1, if_true]
+    exact ⟨by triv, hd, by triv, by triv⟩
+  · simp only [h1, if_false]
+    by_cases h2 : ino.blocks.length * d.blockSize ≥ ino.fileSize
+    · simp only [h2, if_true]
+      exact ⟨by triv, hd, by triv, by triv⟩
+    · simp only [h2, if_false]
+      obtain ⟨hd', hb, ht, hres⟩ := precacheFrag_spec (kw := kw) (sw := sw) hd ino.fragIdx
+      cases hl : d.tbl[ino.fragIdx]? with
+      | none =>
+        rw [hl] at hres
+        simp only at hres
+        have hne : errOutOfBounds ≠ 0 := by decide
+        simp only [hres, ne_eq, hne, not_false_eq_true, if_true]
+        exact ⟨by triv, hd', hb, ht⟩
+      | some ent =>
+        rw [hl] at hres
+        simp only at hres
+        cases hg : getBlock f unc ent.1 ent.2 d.blockSize with
+        | error e =>
+          rw [hg] at hres
+          simp only at hres
+          have hne := getBlock_err hc hg
+          simp only [hres, ne_eq, hne, not_false_eq_true, if_true, hg]
+          exact ⟨by triv, hd', hb, ht⟩
+        | ok fb =>
+          rw [hg] at hres
+          simp only at hres
+          simp only [hres.1, ne_eq, not_true_eq_false, if_false, hres.2, hg]
+          by_cases h3 : ino.fragOff + ino.fileSize % d.blockSize > d.blockSize
+          · simp only [h3, if_true]
+            exact ⟨by triv, hd', hb, ht⟩
+          · simp only [h3, if_false]
+            exact ⟨by triv, hd', hb, ht⟩
+
+/-- the reader object a cacheless reference is computed on: nothing cached -/
+def bare (bs : Nat) (tbl : List (Nat × Nat)) : DR :=
+  { blockSize := bs, tbl := tbl, dataBlock := none, currentBlock := 0, currentWord := 0, fragBlock := none, currentFrag := tbl.length }
+
+theorem bare_dcoh (kw : Bool) (f : File) (unc : Codec) (sw : Nat → Nat) (bs : Nat) (tbl : List (Nat × Nat)) :
+    DCoh kw f unc sw (bare bs tbl) := by
+  constructor <;> intro b hb <;> cases hb
+
+/-- status, and on success the cached block, of `precache_fragment_block` do not depend on the object -/
+theorem precacheFrag_indep {kw : Bool} {f : File} {unc : Codec} {sw : Nat → Nat} (hc : CodecOK unc) {d₁ d₂ : DR}
+    (h₁ : DCoh kw f unc sw d₁) (h₂ : DCoh kw f unc sw d₂) (hb : d₁.blockSize = d₂.blockSize) (ht : d₁.tbl = d₂.tbl) (idx : Nat) :
+    (precacheFrag f unc d₁ idx).1 = (precacheFrag f unc d₂ idx).1 ∧
+    ((precacheFrag f unc d₁ idx).1 = 0 → (precacheFrag f unc d₁ idx).2.fragBlock = (precacheFrag f unc d₂ idx).2.fragBlock ∧
+      (precacheFrag f unc d₁ idx).2.fragBlock.isSome) := by
+  obtain ⟨_, _, _, r₁⟩ := precacheFrag_spec (kw := kw) (sw := sw) h₁ idx
+  obtain ⟨_, _, _, r₂⟩ := precacheFrag_spec (kw := kw) (sw := sw) h₂ idx
+  rw [ht, hb] at r₁
+  cases hl : d₂.tbl[idx]? with
+  | none =>
+    rw [hl] at r₁ r₂
+    simp only at r₁ r₂
+    refine ⟨r₁.trans r₂.symm, fun h0 => ?_⟩
+    rw [r₁] at h0
+    exact absurd h0 (by decide)
+  | some ent =>
+    rw [hl] at r₁ r₂
+    simp only at r₁ r₂
+    cases hg : getBlock f unc ent.1 ent.2 d₂.blockSize with
+    | error e =>
+      rw [hg] at r₁ r₂
+      simp only at r₁ r₂
+      refine ⟨r₁.trans r₂.symm, fun h0 => ?_⟩
+      rw [r₁] at h0
+      exact absurd h0 (getBlock_err hc hg)
+    | ok fb =>
+      rw [hg] at r₁ r₂
+      simp only at r₁ r₂
+      refine ⟨r₁.1.trans r₂.1.symm, fun _ => ⟨r₁.2.trans r₂.2.symm, ?_⟩⟩
+      rw [r₁.2]
+      rfl
+
+/-- relation between the fill step on a coherent reader and on the bare one: same outcome, reader stays coherent -/
+theorem streamFill_spec {kw : Bool} {f : File} {unc : Codec} {sw : Nat → Nat} (hc : CodecOK unc) {d : DR}
+    (hd : DCoh kw f unc sw d) (s : Stream) (used : Nat) :
+    (streamFill f unc d s used).1 = (streamFill f unc (bare d.blockSize d.tbl) s used).1 ∧
+    DCoh kw f unc sw (streamFill f unc d s used).2 ∧
+    (streamFill f unc d s used).2.blockSize = d.blockSize ∧ (streamFill f unc d s used).2.tbl = d.tbl := by
+  have hbare := bare_dcoh kw f unc sw d.blockSize d.tbl
+  obtain ⟨hd', hb', ht', _⟩ := precacheFrag_spec (kw := kw) (sw := sw) hd s.fragIdx
+  obtain ⟨e1, e2⟩ := precacheFrag_indep hc hd hbare (d₂ := bare d.blockSize d.tbl) rfl rfl s.fragIdx
+  unfold streamFill
+  have hbs : (bare d.blockSize d.tbl).blockSize = d.blockSize := rfl
+  rw [hbs]
+  cases hblk : s.blocks with
+  | cons w rest =>
+    simp only
+    refine ⟨?_, ?_⟩
+    · split
+      · triv
+      · split
+        · triv
+        · split
+          · split
+            · triv
+            · split
+              · triv
+              · split <;> triv
+          · split <;> triv
+    · split
+      · exact ⟨hd, by triv, by triv⟩
+      · split
+        · exact ⟨hd, by triv, by triv⟩
+        · split
+          · split
+            · exact ⟨hd, by triv, by triv⟩
+            · split
+              · exact ⟨hd, by triv, by triv⟩
+              · split <;> exact ⟨hd, by triv, by triv⟩
+          · split <;> exact ⟨hd, by triv, by triv⟩
+  | nil =>
+    simp only
+    by_cases h0 : (precacheFrag f unc d s.fragIdx).1 = 0
+    · have h0' : (precacheFrag f unc (bare d.blockSize d.tbl) s.fragIdx).1 = 0 := e1 ▸ h0
+      obtain ⟨e3, e4⟩ := e2 h0
+      simp only [h0, h0', ne_eq, not_true_eq_false, if_false]
+      rw [← e3]
+      obtain ⟨fb, hfb⟩ := Option.isSome_iff_exists.1 e4
+      rw [hfb]
+      simp only
+      by_cases h5 : fb.2 < s.fragOff ∨ fb.2 - s.fragOff < used
+      · simp only [h5, if_true]
+        exact ⟨by triv, hd', hb', ht'⟩
+      · simp only [h5, if_false]
+        exact ⟨by triv, hd', hb', ht'⟩
+    · have h0' : ¬ (precacheFrag f unc (bare d.blockSize d.tbl) s.fragIdx).1 = 0 := e1 ▸ h0
+      simp only [h0, h0', ne_eq, not_false_eq_true, if_true]
+      rw [e1]
+      exact ⟨by triv, hd', hb', ht'⟩
+
+theorem streamGet_spec {kw : Bool} {f : File} {unc : Codec} {sw : Nat → Nat} (hc : CodecOK unc) (sfix : Bool) {d : DR}
+    (hd : DCoh kw f unc sw d) (s : Stream) :
+    ((streamGet sfix f unc d s).1, (streamGet sfix f unc d s).2.1) = streamGetSpec sfix f unc d.blockSize d.tbl s ∧
+    DCoh kw f unc sw (streamGet sfix f unc d s).2.2 ∧
+    (streamGet sfix f unc d s).2.2.blockSize = d.blockSize ∧ (streamGet sfix f unc d s).2.2.tbl = d.tbl := by
+  unfold streamGetSpec
+  change _ = ((streamGet sfix f unc (bare d.blockSize d.tbl) s).1, (streamGet sfix f unc (bare d.blockSize d.tbl) s).2.1) ∧ _
+  unfold streamGet
+  by_cases h1 : s.bufOff < s.bufUsed
+  · simp only [h1, if_true]
+    exact ⟨by triv, hd, by triv, by triv⟩
+  · simp only [h1, if_false]
+    by_cases h2 : s.filesz = 0
+    · simp only [h2, if_true]
+      exact ⟨by triv, hd, by triv, by triv⟩
+    · simp only [h2, if_false]
+      have hbs : (bare d.blockSize d.tbl).blockSize = d.blockSize := rfl
+      rw [hbs]
+      generalize (if s.filesz < d.blockSize then s.filesz else d.blockSize) = used
+      generalize hs1 : ({ s with bufOff := 0, bufUsed := used } : Stream) = s1
+      obtain ⟨q1, q2, q3, q4⟩ := streamFill_spec (kw := kw) (sw := sw) hc hd s1 used
+      generalize streamFill f unc (bare d.blockSize d.tbl) s1 used = rb at q1
+      generalize streamFill f unc d s1 used = rd at q1 q2 q3 q4
+      obtain ⟨fd, dd⟩ := rd
+      obtain ⟨fb, db⟩ := rb
+      simp only at q1 q2 q3 q4
+      subst q1
+      cases fd with
+      | ok mem s' => exact ⟨by triv, q2, q3, q4⟩
+      | fail e => exact ⟨by triv, q2, q3, q4⟩
+      | early e => exact ⟨by triv, q2, q3, q4⟩
+
+theorem reload_dcoh {kw : Bool} {f : File} {unc : Codec} {sw : Nat → Nat} {d : DR} (hd : DCoh kw f unc sw d)
+    (t : Except Status (List (Nat × Nat))) :
+    DCoh kw f unc sw (reload d t) ∧ (reload d t).blockSize = d.blockSize := by
+  unfold reload
+  cases t with
+  | ok t => exact ⟨⟨hd.1, fun fb h => nomatch h⟩, rfl⟩
+  | error e => exact ⟨⟨hd.1, fun fb h => nomatch h⟩, rfl⟩
+
 theorem fresh_dcoh (kw : Bool) (f : File) (unc : Codec) (sw : Nat → Nat) (bs : Nat) (tbl : List (Nat × Nat)) :
     DCoh kw f unc sw (fresh bs tbl) := by
   constructor <;> intro b hb <;> cases hb
 
-theorem run_dcoh {kw : Bool} {f : File} {unc : Codec} {sw : Nat → Nat} (hc : CodecOK unc) (h : List Op) :
-    ∀ d : DR, DCoh kw f unc sw d → (∀ op ∈ h, match op with | .read ino _ _ => ConsIno kw sw ino) →
-      DCoh kw f unc sw (run kw f unc d h) ∧ (run kw f unc d h).blockSize = d.blockSize ∧ (run kw f unc d h).tbl = d.tbl := by
+/-- the histories whose `read`s use inodes consistent with `sw` (no condition when `kw = true`) -/
+def OpsCons (kw : Bool) (sw : Nat → Nat) (h : List OpX) : Prop :=
+  ∀ op ∈ h, match op with | .read ino _ _ => ConsIno kw sw ino | _ => True
+
+theorem run_dcoh {kw : Bool} {f : File} {unc : Codec} {sw : Nat → Nat} (hc : CodecOK unc) (sfix : Bool) (h : List OpX) :
+    ∀ d : DR, DCoh kw f unc sw d → OpsCons kw sw h →
+      DCoh kw f unc sw (runX kw sfix f unc d h) ∧ (runX kw sfix f unc d h).blockSize = d.blockSize := by
   induction h with
-  | nil => intro d hd _; exact ⟨hd, rfl, rfl⟩
+  | nil => intro d hd _; exact ⟨hd, rfl⟩
   | cons op rest ih =>
     intro d hd hall
+    have hrest : OpsCons kw sw rest := fun op hop => hall op (List.mem_cons_of_mem _ hop)
+    have hstep : DCoh kw f unc sw (stepX kw sfix f unc d op) ∧ (stepX kw sfix f unc d op).blockSize = d.blockSize := by
+      cases op with
+      | read ino o n =>
+        have hi : ConsIno kw sw ino := hall (.read ino o n) List.mem_cons_self
+        obtain ⟨_, h2, h3, _⟩ := read_spec hc hd ino hi o n
+        exact ⟨h2, h3⟩
+      | frag ino =>
+        obtain ⟨_, h2, h3, _⟩ := getFragment_spec hc hd ino
+        exact ⟨h2, h3⟩
+      | sget s c =>
+        obtain ⟨_, h2, h3, _⟩ := streamGet_spec hc sfix hd s
+        exact ⟨h2, h3⟩
+      | reload t => exact reload_dcoh hd t
+    have := ih _ hstep.1 hrest
+    unfold runX at this ⊢
+    simp only [List.foldl_cons]
+    exact ⟨this.1, this.2.trans hstep.2⟩
+
+/-- the read-only histories (`run`) are the extended ones restricted to `read` ops -/
+theorem runX_embed (kw sfix : Bool) (f : File) (unc : Codec) (h : List Op) :
+    ∀ d : DR, runX kw sfix f unc d (h.map Op.toX) = run kw f unc d h := by
+  induction h with
+  | nil => intro d; rfl
+  | cons op rest ih =>
+    intro d
     cases op with
     | read ino o n =>
-      have hi : ConsIno kw sw ino := hall (.read ino o n) List.mem_cons_self
-      obtain ⟨_, h2, h3, h4⟩ := read_spec hc hd ino hi o n
-      have := ih _ h2 (fun op hop => hall op (List.mem_cons_of_mem _ hop))
-      unfold run at this ⊢
-      simp only [List.foldl_cons, step]
-      exact ⟨this.1, this.2.1.trans h3, this.2.2.trans h4⟩
+      unfold runX run at ih ⊢
+      simp only [List.map_cons, List.foldl_cons, Op.toX, stepX, step]
+      exact ih _
 
 end Sqfs.DataReader
